@@ -10,7 +10,7 @@
                         identifiers, formulae and SMILES-like labels, e.g. CC(=O)O, C#C, Fe(OH)3 ([ex_label_domain]).
       [rxns_of H]       the stored reactions (rule, reactants, products) as a list; multiset equality is [≡ₚ]. *)
 From stdpp Require Import gmap strings sets.
-From SK Require Import lib.Tok model.C15_Model proof.C15_Proof model.C16_Model proof.C16_Defs proof.C16_Chars proof.C16_Str proof.C16_Sg proof.C16_BipA proof.C16_BipB proof.C16_BipNum proof.C16_BipMarker proof.C16_Reach proof.C16_SgMol proof.C16_SgRules proof.C16_StrItems proof.C16_StrOrder model.C16_Edit proof.C16_BipArcs proof.C16_BipDrop proof.C16_SgDrop.
+From SK Require Import lib.Tok model.C15_Model proof.C15_Proof model.C16_Model proof.C16_Defs proof.C16_Chars proof.C16_Str proof.C16_Sg proof.C16_BipA proof.C16_BipB proof.C16_BipNum proof.C16_BipMarker proof.C16_Reach proof.C16_SgMol proof.C16_SgRules proof.C16_StrItems proof.C16_StrOrder model.C16_Edit proof.C16_BipArcs proof.C16_BipDrop proof.C16_SgDrop proof.C16_SgLegacy.
 Local Open Scope string_scope.
 
 (** every network reachable through the store operations (C15_inv_reachable) satisfies the decidable premise used below *)
@@ -27,6 +27,24 @@ Print Assumptions C16_generated_wf.
 Theorem C16_edited_wf : ∀ kept rxns mols (eds : list edit), wf16 (foldl apply_edit (mk_net kept rxns mols) eds).
 Proof. exact edited_wf16. Qed.
 Print Assumptions C16_edited_wf.
+
+(** (round 5) every network an importer or the parser builds satisfies the store invariant of C15 ([Inv], spelled out in
+    C15_inv_meaning: both indices exact, species = occurring (+ kept), labels only for present species, ids unique, no empty
+    reaction) — from ANY graph and ANY text, with any flags, also when the call raises midway: what was stored before stays,
+    consistently indexed ([ex_built_inv_nonvacuous]: a parse failing at its third line keeps two reactions). *)
+Theorem C16_built_networks_consistent :
+  (∀ (ifl : iflags) (G : bgraph), Inv (bipartite_to_hypergraph ifl G).1) ∧
+  (∀ (pick : gset string → string) (default_rule : string) (mol_attr : bool) (G : sgraph),
+     Inv (species_graph_to_hypergraph pick default_rule mol_attr G).1) ∧
+  (∀ (lines : list string) (default_rule : string) (parse_suffix prefer_suffix : bool),
+     Inv (rxns_to_hypergraph lines default_rule parse_suffix prefer_suffix).1) ∧
+  (∀ (s : net) (items : list (string * option string)) (default_rule : string) (parse_suffix prefer_suffix : bool),
+     Inv s → Inv (parse_items s items default_rule parse_suffix prefer_suffix).1) ∧
+  (∀ (s : net) (line : string) (rule : option string) (parse_suffix : bool), Inv s → Inv (add_from_str s line rule parse_suffix).1).
+Proof.
+  exact (conj bipartite_import_Inv (conj species_graph_import_Inv (conj rxns_to_hypergraph_Inv (conj parse_items_Inv add_from_str_Inv)))).
+Qed.
+Print Assumptions C16_built_networks_consistent.
 
 (** ** Bipartite species/reaction graph *)
 
@@ -283,10 +301,28 @@ Print Assumptions C16_untagged_default_prefixes.
     reactions share a species pair with different coefficients: [ex_sdrop_maps_needed]; non-vacuity [ex_sdrop_nonvacuous].) *)
 Theorem C16_species_graph_roundtrip_edited : ∀ (pick : gset string → string) (default_rule : string) (include_mol mol_attr : bool)
     (d : sdrops) (H : net),
-  map_Forall (λ _ rx, r_lhs rx ≠ ∅ ∧ r_rhs rx ≠ ∅) (edges H) → sd_maps d = false →
+  map_Forall (λ _ rx, r_lhs rx ≠ ∅ ∧ r_rhs rx ≠ ∅) (edges H) → sd_rmap d = false → sd_pmap d = false →
   (species_graph_to_hypergraph pick default_rule mol_attr (sdrop_attrs d (hypergraph_to_species_graph include_mol H))).2 = None ∧
   (λ rx, (r_lhs rx, r_rhs rx)) <$> edges (species_graph_to_hypergraph pick default_rule mol_attr
                                             (sdrop_attrs d (hypergraph_to_species_graph include_mol H))).1
     = (λ rx, (r_lhs rx, r_rhs rx)) <$> edges H.
 Proof. exact species_graph_roundtrip_edited. Qed.
 Print Assumptions C16_species_graph_roundtrip_edited.
+
+(** the LEGACY format: graphs without the per-reaction maps (either or both deleted; the legacy per-arc value of a deleted
+    map must then stay).  The importer falls back to stoich_r / stoich_p — the minimum over the reactions of the arc — and the
+    round trip holds when that minimum loses nothing: reactions that share a (reactant, product) pair agree on both
+    coefficients for it.  Necessary: [ex_sdrop_maps_needed] (2A >> B, 3A >> 4B); non-vacuity [ex_legacy_nonvacuous]
+    (two reactions on the arc A -> B with equal coefficients, differing elsewhere; labels, rules and both maps deleted). *)
+Theorem C16_species_graph_roundtrip_legacy : ∀ (pick : gset string → string) (default_rule : string) (include_mol mol_attr : bool)
+    (d : sdrops) (H : net),
+  map_Forall (λ _ rx, r_lhs rx ≠ ∅ ∧ r_rhs rx ≠ ∅) (edges H) →
+  (∀ e e' rx rx' u v c d c' d', edges H !! e = Some rx → edges H !! e' = Some rx' →
+     r_lhs rx !! u = Some c → r_rhs rx !! v = Some d → r_lhs rx' !! u = Some c' → r_rhs rx' !! v = Some d' → c = c' ∧ d = d') →
+  (sd_rmap d = true → sd_leg_r d = false) → (sd_pmap d = true → sd_leg_p d = false) →
+  (species_graph_to_hypergraph pick default_rule mol_attr (sdrop_attrs d (hypergraph_to_species_graph include_mol H))).2 = None ∧
+  (λ rx, (r_lhs rx, r_rhs rx)) <$> edges (species_graph_to_hypergraph pick default_rule mol_attr
+                                            (sdrop_attrs d (hypergraph_to_species_graph include_mol H))).1
+    = (λ rx, (r_lhs rx, r_rhs rx)) <$> edges H.
+Proof. exact species_graph_roundtrip_legacy. Qed.
+Print Assumptions C16_species_graph_roundtrip_legacy.
